@@ -34,6 +34,9 @@ type Family struct {
 	Count      func(t Tier) int
 	Exhaustive bool
 	Run        func(c *Ctx, idx int)
+	// Guard overrides the per-case wall-clock guard (default 120 s) for
+	// families whose cases are legitimately slow.
+	Guard time.Duration
 	// Serial families run in one worker only (worker 0), e.g. because they
 	// change package-level variables of the library or spawn their own
 	// processes.
@@ -134,6 +137,9 @@ type FamStat struct {
 	Nontrivial int64 `json:"nontrivial"`
 	Exhaustive bool  `json:"exhaustive,omitempty"`
 	Planned    int64 `json:"planned"`
+	CPUMs      int64 `json:"cpu_ms"` // summed wall time of the cases (over all workers)
+	MaxMs      int64 `json:"slowest_case_ms"`
+	cpuUs      int64
 }
 
 type Stats struct {
@@ -174,6 +180,7 @@ type Ctx struct {
 	lastFlush  time.Time
 	famIdx     map[string]int
 	caseStart  atomic.Int64
+	famGuard   atomic.Int64
 	active     map[string]bool // ids of known findings with status "finding"
 	replayMode bool
 }
@@ -374,6 +381,7 @@ func (c *Ctx) runCase(f *Family, fi, idx int) {
 		c.R = NewRand(0, c.Prop.ID, f.Name, idx)
 	}
 	c.journalSet(fi, idx, true)
+	c.famGuard.Store(int64(f.Guard))
 	c.caseStart.Store(time.Now().UnixNano())
 	fs := c.st.Fam[f.Name]
 	fs.Cases++
@@ -387,6 +395,14 @@ func (c *Ctx) runCase(f *Family, fi, idx int) {
 		}()
 		f.Run(c, idx)
 	}()
+	if s := c.caseStart.Load(); s != 0 {
+		us := (time.Now().UnixNano() - s) / 1000
+		fs.cpuUs += us
+		fs.CPUMs = fs.cpuUs / 1000
+		if us/1000 > fs.MaxMs {
+			fs.MaxMs = us / 1000
+		}
+	}
 	c.caseStart.Store(0)
 	c.journalSet(fi, idx, false)
 }
@@ -431,8 +447,12 @@ func RunWorker(a WorkerArgs) int {
 		for {
 			time.Sleep(500 * time.Millisecond)
 			s := c.caseStart.Load()
-			if s != 0 && time.Since(time.Unix(0, s)) > guard {
-				fmt.Fprintf(os.Stderr, "CASE-TIMEOUT family=%s index=%d guard=%s\n", c.Family, c.Index, guard)
+			g := guard
+			if fg := time.Duration(c.famGuard.Load()); fg > 0 && a.CaseGuard == 0 {
+				g = fg
+			}
+			if s != 0 && time.Since(time.Unix(0, s)) > g {
+				fmt.Fprintf(os.Stderr, "CASE-TIMEOUT family=%s index=%d guard=%s\n", c.Family, c.Index, g)
 				c.flush(start, false)
 				os.Exit(ExitTimeout)
 			}
@@ -568,6 +588,10 @@ func Merge(dirs []string) *Merged {
 			f.Cases += v.Cases
 			f.Evals += v.Evals
 			f.Nontrivial += v.Nontrivial
+			f.CPUMs += v.CPUMs
+			if v.MaxMs > f.MaxMs {
+				f.MaxMs = v.MaxMs
+			}
 			if v.Planned > f.Planned {
 				f.Planned = v.Planned
 			}
